@@ -139,3 +139,30 @@ func TestEmptyPathSegmentsAreNotResolved(t *testing.T) {
 		t.Errorf("batch delete of the key \"/secret\" answered %d and removed the key \"secret\"", d.Status)
 	}
 }
+
+// A batch delete with an empty key names the bucket directory itself: it must be refused and must leave the bucket as it
+// was. With versioning suspended the bucket directory got a delete-marker attribute; with an empty, unversioned bucket the
+// bucket directory itself was removed.
+func TestDeleteObjectsWithAnEmptyKeyDoesNotTouchTheBucketDirectory(t *testing.T) {
+	g, c := setup(t)
+	g.MustStatus(g.Put(c, "/empty", nil, nil), 200, "create bucket empty")
+	body := `<Delete xmlns="http://s3.amazonaws.com/doc/2006-03-01/"><Object><Key></Key></Object></Delete>`
+	before, _ := xattr.List(filepath.Join(g.Root, "empty"))
+	r := g.Post(c, "/empty?delete", []byte(body), nil)
+	if r.Err != nil {
+		t.Fatalf("no answer: %v", r.Err)
+	}
+	if r.Status/100 == 2 && strings.Contains(string(r.Body), "<Deleted>") {
+		t.Errorf("a delete of the empty key was carried out: %d %s", r.Status, r.Body)
+	}
+	if _, err := os.Stat(filepath.Join(g.Root, "empty")); err != nil {
+		t.Fatalf("after the batch delete the bucket directory is gone: %v", err)
+	}
+	after, _ := xattr.List(filepath.Join(g.Root, "empty"))
+	if len(after) != len(before) {
+		t.Errorf("attributes of the bucket directory before %v, after %v", before, after)
+	}
+	if h := g.Head(c, "/empty"); h.Status != 200 {
+		t.Errorf("HEAD of the bucket afterwards: %d", h.Status)
+	}
+}
